@@ -43,9 +43,10 @@ class JsonResource(Resource):
             self.to_obj(d, first=True)
         self.uri.close_stream()
         for inst, refs in self._load_href.items():
-            self.process_inst(inst, refs)
+            self.process_inst(inst, refs, resolve_local=True)
         self._load_href.clear()
         self._find_feature.cache_clear()
+        self._resolve_mem.clear()
         self.cache_enabled = False
 
     def save(self, output=None, options=None):
@@ -232,7 +233,23 @@ class JsonResource(Resource):
             self._load_href[inst] = ereferences
         return inst
 
-    def process_inst(self, inst, features, owning_feature=None):
+    def _local_target(self, element):
+        # Every object of this resource exists when the postponed references
+        # are processed: a reference into this resource is resolved at once.
+        # Unresolved proxies of one target are distinct set members and
+        # change their hash when resolved, which corrupts unique
+        # collections filled from both ends of a bidirectional reference.
+        if isinstance(element, EProxy) and not element.resolved \
+                and not self._is_external(element._proxy_path)[0]:
+            try:
+                return element.force_resolve()
+            except Exception:
+                pass  # dangling: stays a proxy
+        return element
+
+    def process_inst(self, inst, features, owning_feature=None,
+                     resolve_local=False):
+        target = self._local_target if resolve_local else (lambda x: x)
         for feature, value in features:
             if value is None and not feature.many:
                 inst.eSet(feature, None)  # JSON null
@@ -240,11 +257,11 @@ class JsonResource(Resource):
                 key, val = next(iter(value.items()))
                 inst.eGet(feature)[key] = val
             elif isinstance(value, dict):
-                element = self.to_obj(value, owning_feature=feature)
+                element = target(self.to_obj(value, owning_feature=feature))
                 inst.eSet(feature, element)
             elif isinstance(value, list):
                 if feature.is_reference:
-                    elements = (self.to_obj(x, owning_feature=feature)
+                    elements = (target(self.to_obj(x, owning_feature=feature))
                                 for x in value)
                     elements = (x for x in elements if x is not None)
                 else:
